@@ -178,12 +178,20 @@ def _spec_provenance(cfg, node, e, depth=0):
                 for dv in U.reaching_defs(cfg, r.id)[node.id]:
                     if dv == 'unbound':
                         continue
-                    dd = dotted(dv) if not isinstance(dv, str) else None
-                    if dd and dd.startswith('self.') and \
-                            dd[5:] in CLAUSE_ATTRS:
-                        out.add('cached:' + CLAUSE_ATTRS[dd[5:]])
-                    else:
-                        return None
+                    alts = [dv]
+                    if isinstance(dv, ast.Call) and \
+                            U.call_name(dv) == 'get' and \
+                            isinstance(dv.func.value, ast.Dict):
+                        # {state: clause, ...}.get(state): one of the values
+                        # (or None, which the caller tests for)
+                        alts = list(dv.func.value.values)
+                    for av in alts:
+                        dd = dotted(av) if not isinstance(av, str) else None
+                        if dd and dd.startswith('self.') and \
+                                dd[5:] in CLAUSE_ATTRS:
+                            out.add('cached:' + CLAUSE_ATTRS[dd[5:]])
+                        else:
+                            return None
                 return out or None
         return None
     if isinstance(e, ast.Name) and depth < 3:
@@ -200,6 +208,53 @@ def _spec_provenance(cfg, node, e, depth=0):
             out |= sub
         return out or None
     return None
+
+
+def clause_by_state(ctx, rule):
+    """Which on-clause publishes for which completion state: in
+    DirectWorkflowTaskSpec.get_publish the clause is on-success for SUCCESS,
+    on-error for ERROR and on-skip for SKIPPED (read off an if/elif chain on
+    `state == states.X` or a {state: clause}.get(state) table)."""
+    prog = ctx.prog
+    f = prog.func('mistral.lang.v2.tasks.DirectWorkflowTaskSpec.get_publish')
+    cfg = ctx.cfg(f)
+    P = f.params[-1]
+    want = {'SUCCESS': 'self._on_success', 'ERROR': 'self._on_error',
+            'SKIPPED': 'self._on_skip'}
+    uses = [n for n in cfg.nodes if n.kind == 'test' and any(
+        isinstance(x, ast.Call) and U.call_name(x) == 'get_publish' and
+        isinstance(x.func.value, ast.Name) for x in ast.walk(n.ast))]
+    if not uses:
+        raise AnalysisError('get_publish: test of the chosen clause not '
+                            'found')
+    var = [x.func.value.id for x in ast.walk(uses[0].ast)
+           if isinstance(x, ast.Call) and U.call_name(x) == 'get_publish' and
+           isinstance(x.func.value, ast.Name)][0]
+    got = {}
+    for n in cfg.nodes:
+        if n.kind == 'stmt' and isinstance(n.ast, ast.Assign) and \
+                dotted(n.ast.targets[0]) == var:
+            v = n.ast.value
+            if isinstance(v, ast.Call) and U.call_name(v) == 'get' and \
+                    isinstance(v.func.value, ast.Dict) and v.args and \
+                    norm(v.args[0]) == P and not U.guard_atoms(cfg, n):
+                for k, vv in zip(v.func.value.keys, v.func.value.values):
+                    got[(dotted(k) or '').split('.')[-1]] = norm(vv)
+                continue
+            for a, t in U.guard_atoms(cfg, n):
+                if t and isinstance(a, ast.Compare) and \
+                        isinstance(a.ops[0], ast.Eq) and norm(a.left) == P:
+                    got[(dotted(a.comparators[0]) or '').split('.')[-1]] = \
+                        norm(v)
+    if not got:
+        raise AnalysisError('get_publish: state -> clause choice not '
+                            'understood')
+    for st, cl in sorted(want.items()):
+        rule.check(got.get(st) == cl,
+                   ctx.construct(f, extra='%s -> %s' % (st, cl[6:])),
+                   'a task completed with %s publishes the `publish` of %s, '
+                   'not of its %s clause' % (st, got.get(st), cl[6:]),
+                   ctx.loc(f))
 
 
 def shared_publish_specs(ctx, rule):
@@ -284,9 +339,13 @@ def run(ctx):
     _sh.inbound_before_publish(ctx, r9)
     _sh.requires_read_with_defaults(ctx, r9)
     _sh.upstream_states_are_completed_states(ctx, r9)
+    _sh.filters_never_dropped(ctx, r9)
     r10 = ctx.rule('R10', 'cached publish spec objects are only extended '
                    'with content of their own scope', 'ownership/dataflow')
     shared_publish_specs(ctx, r10)
+    r11 = ctx.rule('R11', 'the on-clause that publishes is the one of the '
+                   'completion state (success / error / skip)', 'DT')
+    clause_by_state(ctx, r11)
 
 
 def _run(ctx):
